@@ -55,7 +55,7 @@ func runC02(c *core.Ctx, o Options) {
 	c.Explanation = "Structural necessary conditions for 'parsing inverts serialization': R1 — every value type's formatter and parser are an inverse pair from the frozen codec table, Float keeps its source bytes and prefers them; R2 — KeyValue.AsTemplate has a case for every implementation of fix.Value and returns the same concrete type " +
 		"(a group entry's field must be parsed into the type its typed getter asserts); R3 — the Item switches of Group.AsTemplate, Component.AsTemplate and the decoder cover KeyValue, Group and Component and rebuild the same kind, at the same index, for every element; R4 — one fresh template per group entry: the entry is created by AsTemplate() inside the per-entry loop, " +
 		"filled from piece i and added exactly once, i ascending from 0 to the parsed count, which equals the number of pieces; R5 — a value is exactly the bytes from the end of its anchored 'tag=' to the next delimiter (first occurrence) or the end, handed to FromBytes unmodified; R6 — splitGroup partitions its input (the upper cut of a piece is the lower cut of the remainder) " +
-		"and a count mismatch is an error; R7 — every loop over template items in the decoder visits the whole slice and leaves early only with an error. Not decided: equality of values over all inputs, the choice among several well-anchored occurrences (C18), field order."
+		"and a count mismatch is an error; R7 — every loop over template items in the decoder visits the whole slice and leaves early only with an error; R8 — group entries are cut at occurrences of SOH·firstTag·'=' (the whole tag up to and including '='), found after the current entry's first byte. Not decided: equality of values over all inputs, the choice among several well-anchored occurrences (C18), field order."
 	checkCodecs(c, "R1", map[string]bool{"tobytes": true, "frombytes": true, "isnull": true})
 	// ---- R2
 	at := c.Func("fix", "KeyValue.AsTemplate")
@@ -381,6 +381,8 @@ func runC02(c *core.Ctx, o Options) {
 		c.Check(len(bad) == 0, "R4", "state.unmarshal", "one fresh template per entry, filled from piece i, added once, for i = 0 … count−1 = pieces−1", um.Pos(), "AsTemplate inside the loop; AddEntry(entry) after the item loop; len(pieces) == count", strings.Join(bad, "; "))
 	}
 	checkValueExtraction(c, "R5")
+	// ---- R8 entries are cut at the whole first tag: the separator handed to splitGroup is SOH·firstTag·'='
+	checkGroupSeparator(c, "R8")
 	// ---- R6 splitGroup partition
 	{
 		paths, _ := an.EnumPaths(sg, 256)
@@ -512,7 +514,7 @@ func runC02(c *core.Ctx, o Options) {
 			}
 		}
 	}
-	c.RuleMin = map[string]int{"R1": 28, "R2": 1, "R3": 4, "R4": 1, "R5": 2, "R6": 1, "R7": 3}
+	c.RuleMin = map[string]int{"R1": 28, "R2": 1, "R3": 4, "R4": 1, "R5": 2, "R6": 1, "R7": 3, "R8": 2}
 	c.MinObl = 30
 }
 
